@@ -69,6 +69,44 @@ def fields (m, x, n_sub = 4):
     return E, H
 # end def fields
 
+def vector_potential (m, x, n_sub = 8):
+    """ A / mu at point x: (1 / 4 pi) sum I tau int K ds' over all half-segments and images """
+    kw  = m.w
+    srm = m.srm
+    x   = np.asarray (x, float)
+    A   = np.zeros (3, complex)
+    imgs = [1] if m.media is None else [1, -1]
+    for p, I in zip (m.pulses, m.current):
+        for k in imgs:
+            if k < 0 and p.ground.any ():
+                continue
+            mir = np.array ([1, 1, k], float)
+            P  = np.asarray (p.point, float) * mir
+            E0 = np.asarray (p.ends [0], float) * mir
+            E1 = np.asarray (p.ends [1], float) * mir
+            for (s0, s1, r) in (((P + E0) / 2, P, p.geo [0].r), (P, (P + E1) / 2, p.geo [1].r)):
+                tau = (s1 - s0) / np.linalg.norm (s1 - s0)
+                Ki, gK = seg_int_vec (x, s0, s1, r, kw, r > srm, n_sub)
+                A += k * I * tau * Ki / (4 * np.pi)
+    return A
+# end def vector_potential
+
+def h_central_difference (m, x, step):
+    """ curl of the exact A / mu by central differences over `step` (the
+        scheme of MININEC: differences of the vector potential over 0.001
+        wavelengths). Used only to *classify* a deviation of the reported H
+        from the exact curl: if the reported H equals this value, the
+        deviation is the truncation error of that step.
+    """
+    x = np.asarray (x, float)
+    J = np.zeros ((3, 3), complex)
+    for j in range (3):
+        e = np.zeros (3)
+        e [j] = step / 2
+        J [:, j] = (vector_potential (m, x + e) - vector_potential (m, x - e)) / step
+    return np.array ([J [2, 1] - J [1, 2], J [0, 2] - J [2, 0], J [1, 0] - J [0, 1]])
+# end def h_central_difference
+
 def min_distance (m, x):
     """ distance of x from the nearest conductor (images included) in
         units of the longest segment
